@@ -1,0 +1,8 @@
+//go:build !verif
+// +build !verif
+
+package eth
+
+// verifSealAccept is the seal-acceptance switch of the verification harness; without the build tag
+// verif it is constantly false and verifyHeader behaves as before.
+func verifSealAccept() bool { return false }
